@@ -115,6 +115,9 @@ func (e *Engine) invoke(st *State, fv Value, args []Value, rk retKind, c *ssa.Ca
 		e.finishCall(st, rk, nil)
 		return
 	}
+	if rk == retNormal && !e.lenientAny(st) && e.callMerged(st, f, fn, args) {
+		return
+	}
 	nf := e.pushFrame(st, fn, args, rk)
 	if len(st.frames) >= 2 && st.frames[len(st.frames)-2].lenient {
 		nf.lenient = true
